@@ -12,6 +12,7 @@ Engine E3: the thread-pool protocol of src/parallel.rs.
 exit 0 held / 1 VIOLATION (reproduced) / 2 inconclusive (extraction failed, not reproduced, timeout)
 """
 import json
+import re
 import os
 import shutil
 import subprocess
@@ -57,6 +58,51 @@ def dump_mir():
     if p.returncode != 0 or "fn read_parallel_init" not in p.stdout:
         raise mirx.Unrecognised("MIR dump failed: " + p.stderr[-500:])
     return p.stdout
+
+
+WRAPPED = r"(read_parallel_init|read_parallel|parallel_fast[aq]_init|parallel_fast[aq]|parallel_records)"
+
+
+def check_wrappers(mir):
+    """The public wrappers (read_parallel, parallel_fasta/fastq(_init), parallel_records) reach
+    read_parallel_init through plain calls.  The model is parameterised by the n_threads / queue_len that
+    read_parallel_init receives; the properties speak about the values the *user* passes.  Extraction
+    rule: every wrapper hands its own u32 (n_threads) and usize (queue_len) parameters on unchanged;
+    anything else is outside the recognised vocabulary.  Returns the names of the wrappers checked."""
+    seen = []
+    fns = list(re.finditer(r"^fn ([A-Za-z_0-9]+)\(([^\n]*?)\) -> [^\n]*\{\n(.*?)^\}", mir, re.M | re.S))
+
+    def positions(params):
+        ps = [x.strip() for x in params.split(", _")]
+        iu = [i for i, x in enumerate(ps) if re.search(r"^_?\d+: u32$", x)]
+        iz = [i for i, x in enumerate(ps) if re.search(r"^_?\d+: usize$", x)]
+        return (iu[0], iz[0]) if iu and iz else None
+
+    sig = {m.group(1): positions(m.group(2)) for m in fns}
+    for m in fns:
+        name, params, body = m.groups()
+        calls = [(l, c.group(1)) for l in body.splitlines() for c in [re.search(r"= " + WRAPPED + r"::<", l)] if c]
+        if not calls or name.startswith("test"):
+            continue
+        pu32 = re.search(r"(_\d+): u32", params)
+        pusz = re.search(r"(_\d+): usize", params)
+        if not pu32 or not pusz:
+            raise mirx.Unrecognised("wrapper %s calls a parallel entry point but has no (u32, usize) parameters" % name)
+        for l, callee in calls:
+            if not sig.get(callee):
+                raise mirx.Unrecognised("wrapper %s calls %s whose signature has no (u32, usize) parameters" % (name, callee))
+            a = re.search(r">\(((?:copy|move) _\d+(?:, (?:copy|move) _\d+)*)", l)
+            args = [x.split()[-1] for x in a.group(1).split(", ")] if a else []
+            iu, iz = sig[callee]
+            if len(args) <= max(iu, iz) or args[iu] != pu32.group(1) or args[iz] != pusz.group(1):
+                raise mirx.Unrecognised("wrapper %s does not pass its n_threads / queue_len parameters through unchanged: %s" % (name, l.strip()[:160]))
+        for prm in (pu32.group(1), pusz.group(1)):
+            if re.search(r"^\s*%s = " % re.escape(prm), body, re.M):
+                raise mirx.Unrecognised("wrapper %s reassigns its parameter %s" % (name, prm))
+        seen.append(name)
+    if "read_parallel" not in seen:
+        raise mirx.Unrecognised("read_parallel is not a plain wrapper around read_parallel_init any more")
+    return seen
 
 
 class Run:
@@ -287,9 +333,11 @@ def main():
     rc = 0
     try:
         mir = dump_mir()
+        wrappers = check_wrappers(mir)
+        print("  wrappers passing n_threads / queue_len through unchanged: %s" % ", ".join(wrappers), flush=True)
         for (QL, NTHR, KMAX, D) in CONFIGS[tier]:
             run = Run(mir, QL, NTHR, KMAX, D)
-            funcs = run.ex.functions_encoded
+            funcs = list(run.ex.functions_encoded) + ["%s (wrapper: n_threads / queue_len passed through unchanged)" % w for w in wrappers]
             states += run.main.n + run.reader.n + sum(a.n for a in getattr(run.job, 'kinds', [run.job]))
             transitions += run.M.E
             # the depth bound must be sufficient: checked for every property, not only C08
